@@ -7,6 +7,11 @@
  * fsi_ flat_set<int,inplace_vector<int,N>> (no modifiers: inplace_vector lacks emplace(pos)/erase/assignment), fm_/fmg_/fmi_ flat_multiset.
  * Not expressible: static_set::equal_range (does not compile: returns pair as iterator), flat_set::insert(sorted_unique_t, first, last)
  * (declared, never defined), static_set has no hint insert / erase_if / extract.
+ * ssa_/ssag_/ssat_, fsa_/fsag_/fsat_, fia_ (inplace_vector), fma_: the same sets with the driver's AUDITING comparators aud_less / aud_greater / aud_less_t (they
+ * order like less / greater / less<>, so the same templates apply); fv_ / fmv_: flat_set<int, vf::fixed_vec<int,N>, aud_less> / flat_multiset<..., aud_greater>
+ * over the driver's trivially copyable container with a size_t size (complete API).  See "auditing comparator" below.
+ * *_alias groups (and input `alias` of erase_key): keys handed over by reference ALIAS an element of the set (s.erase(*it), s.find(*it), s.insert(*it) ...).
+ * seq_* groups: two-step histories (erase/insert, extract/insert/replace, swap/lookup) from an arbitrary well-formed state.
  * solver=kissat everywhere: MiniSat livelocks on some of these (tiny) instances.
  * thorough only: insert(first,last)/range construction for every instantiation but ss_ (fs_ctor_cont runs the same fold in quick), the hint
  * overloads of flat_set, flat_set(container) for greater/transparent, the (known-broken) insert iterator of ssg_/sst_.  Everything else is quick. */
@@ -38,6 +43,15 @@ typedef struct CAT3(etl_static_set_int_, VF_N, _etl_less) sst_t;
 #define ssg_EL ss_EL
 #define sst_SZ ss_SZ
 #define sst_EL ss_EL
+typedef struct CAT3(etl_static_set_int_, VF_N, _vf_aud_less) ssa_t;
+typedef struct CAT3(etl_static_set_int_, VF_N, _vf_aud_greater) ssag_t;
+typedef struct CAT3(etl_static_set_int_, VF_N, _vf_aud_less_t) ssat_t;
+#define ssa_SZ ss_SZ
+#define ssa_EL ss_EL
+#define ssag_SZ ss_SZ
+#define ssag_EL ss_EL
+#define ssat_SZ ss_SZ
+#define ssat_EL ss_EL
 typedef struct CAT(etl_flat_set_int_etl_static_vector_int_, VF_N) fs_t;
 typedef struct CAT3(etl_flat_set_int_etl_static_vector_int_, VF_N, _etl_greater_int) fsg_t;
 typedef struct CAT3(etl_flat_set_int_etl_static_vector_int_, VF_N, _etl_less) fst_t;
@@ -50,6 +64,24 @@ typedef struct CAT(etl_flat_set_int_etl_inplace_vector_int_, VF_N) fsi_t;
 #define fst_EL fs_EL
 #define fsi_SZ(s) iv_SZ((s)._container)
 #define fsi_EL(s, i) iv_EL((s)._container, i)
+typedef struct CAT3(etl_flat_set_int_etl_static_vector_int_, VF_N, _vf_aud_less) fsa_t;
+typedef struct CAT3(etl_flat_set_int_etl_static_vector_int_, VF_N, _vf_aud_greater) fsag_t;
+typedef struct CAT3(etl_flat_set_int_etl_static_vector_int_, VF_N, _vf_aud_less_t) fsat_t;
+typedef struct CAT3(etl_flat_set_int_etl_inplace_vector_int_, VF_N, _vf_aud_less) fia_t;
+typedef struct CAT(vf_fixed_vec_int_, VF_N) fvc_t;
+typedef struct CAT3(etl_flat_set_int_vf_fixed_vec_int_, VF_N, _vf_aud_less) fv_t;
+#define fvc_SZ(v) ((v)._size)
+#define fvc_EL(v, i) ((v)._data[i])
+#define fsa_SZ fs_SZ
+#define fsa_EL fs_EL
+#define fsag_SZ fs_SZ
+#define fsag_EL fs_EL
+#define fsat_SZ fs_SZ
+#define fsat_EL fs_EL
+#define fia_SZ fsi_SZ
+#define fia_EL fsi_EL
+#define fv_SZ(s) fvc_SZ((s)._container)
+#define fv_EL(s, i) fvc_EL((s)._container, i)
 typedef struct CAT(etl_flat_multiset_int_etl_static_vector_int_, VF_N) fm_t;
 typedef struct CAT3(etl_flat_multiset_int_etl_static_vector_int_, VF_N, _etl_greater_int) fmg_t;
 typedef struct CAT(etl_flat_multiset_int_etl_inplace_vector_int_, VF_N) fmi_t;
@@ -59,8 +91,29 @@ typedef struct CAT(etl_flat_multiset_int_etl_inplace_vector_int_, VF_N) fmi_t;
 #define fmg_EL fs_EL
 #define fmi_SZ fsi_SZ
 #define fmi_EL fsi_EL
+typedef struct CAT3(etl_flat_multiset_int_etl_static_vector_int_, VF_N, _vf_aud_less) fma_t;
+typedef struct CAT3(etl_flat_multiset_int_vf_fixed_vec_int_, VF_N, _vf_aud_greater) fmv_t;
+#define fma_SZ fs_SZ
+#define fma_EL fs_EL
+#define fmv_SZ fv_SZ
+#define fmv_EL fv_EL
 /* containers handed to / returned by flat_set */
 typedef sv_t fs_c; typedef sv_t fsg_c; typedef sv_t fst_c; typedef iv_t fsi_c; typedef sv_t fm_c; typedef sv_t fmg_c; typedef iv_t fmi_c;
+typedef sv_t fsa_c; typedef sv_t fsag_c; typedef sv_t fsat_c; typedef iv_t fia_c; typedef fvc_t fv_c; typedef sv_t fma_c; typedef fvc_t fmv_c;
+#define fsa_CSZ sv_SZ
+#define fsa_CEL sv_EL
+#define fsag_CSZ sv_SZ
+#define fsag_CEL sv_EL
+#define fsat_CSZ sv_SZ
+#define fsat_CEL sv_EL
+#define fia_CSZ iv_SZ
+#define fia_CEL iv_EL
+#define fv_CSZ fvc_SZ
+#define fv_CEL fvc_EL
+#define fma_CSZ sv_SZ
+#define fma_CEL sv_EL
+#define fmv_CSZ fvc_SZ
+#define fmv_CEL fvc_EL
 #define fs_CSZ sv_SZ
 #define fs_CEL sv_EL
 #define fsg_CSZ sv_SZ
@@ -111,6 +164,32 @@ view_t vf_snap; unsigned char *vf_snap_sz; int *vf_snap_el;
     __CPROVER_assert(same, "the set is unmodified (size and every slot) when the assertion handler runs"); } } while (0)
 #include "vf_handler.h"
 
+/* ---- auditing comparator.  The driver's aud_less / aud_greater / aud_less_t hand the ADDRESSES of their two arguments to the ghost hooks vf::g_cmp*
+ * (EXTERNAL in the lowered C, defined here).  AUD_ARM names the set under test; from then on every address given to the comparator that lies INSIDE
+ * that set object must be a LIVE element when the comparator runs: element offset in [0, size), size read from the object at that moment - never
+ * *end(), a stale slot behind end() or a never-written slot.  Addresses outside the object (the caller's key, a local copy of it, a source range)
+ * are simply dereferenced (CBMC's pointer checks / ASan in the replay judge those).  The hooks answer like operator<. ---- */
+const void *vf_aud_obj; unsigned long vf_aud_objsz; const int *vf_aud_el0; const void *vf_aud_szp; unsigned long vf_aud_szw;
+static unsigned long vf_aud_size(void) { return vf_aud_szw == 1 ? *(const unsigned char *)vf_aud_szp : *(const unsigned long *)vf_aud_szp; }
+static void vf_audit(const void *p) {
+  if (!vf_aud_obj) return;
+#ifdef VF_NATIVE
+  unsigned long a = (unsigned long)p, lo = (unsigned long)vf_aud_obj, e0 = (unsigned long)vf_aud_el0;
+  _Bool inside = a >= lo && a < lo + vf_aud_objsz;
+  _Bool live = a >= e0 && (a - e0) % sizeof(int) == 0 && (a - e0) / sizeof(int) < vf_aud_size();
+#else
+  _Bool inside = __CPROVER_same_object(p, vf_aud_obj);
+  long d = (long)__CPROVER_POINTER_OFFSET(p) - (long)__CPROVER_POINTER_OFFSET(vf_aud_el0);
+  _Bool live = d >= 0 && d % (long)sizeof(int) == 0 && (unsigned long)d / sizeof(int) < vf_aud_size();
+#endif
+  __CPROVER_assert(!inside || live, "C02: the comparator is only handed live elements [begin, begin+size) of the set, never *end(), a stale or a never-written slot");
+}
+/* (cxx2c drops const from pointer parameters: the prototypes in the lowered C are (int *, int *) ...) */
+_Bool _ZN2vf5g_cmpEPKiS1_(int *a, int *b) { vf_audit(a); vf_audit(b); return *a < *b; }
+_Bool _ZN2vf8g_cmp_liEPKlPKi(long *a, int *b) { vf_audit(a); vf_audit(b); return *a < *b; }
+_Bool _ZN2vf8g_cmp_ilEPKiPKl(int *a, long *b) { vf_audit(a); vf_audit(b); return *a < *b; }
+#define AUD_ARM(P, s) do { vf_aud_obj = &(s); vf_aud_objsz = sizeof(s); vf_aud_el0 = &P##_EL(s, 0); vf_aud_szp = &P##_SZ(s); vf_aud_szw = sizeof(P##_SZ(s)); } while (0)
+
 /* ---- case-split cells.  A group with split=SW:lo:hi (SN, SC, SX likewise) is run once per value; the cells of a group together cover its whole
  * input domain (every cell is a full proof for its slice, nothing is sampled).  Cells fix a harness input by ASSIGNMENT, not by assumption, so
  * that symbolic execution propagates the constant; several small formulas are far cheaper than their conjunction. ---- */
@@ -156,7 +235,7 @@ view_t vf_snap; unsigned char *vf_snap_sz; int *vf_snap_el;
 #endif
 
 /* an arbitrary well-formed set s of instantiation P (comparator C) and its view o */
-#define ARB(P, C, s, o) VF_INPUT(P##_t, s); CELL_N(P, s); view_t o; VIEW(o, P##_SZ, P##_EL, s); __CPROVER_assume(v_wf(o, C))
+#define ARB(P, C, s, o) VF_INPUT(P##_t, s); CELL_N(P, s); view_t o; VIEW(o, P##_SZ, P##_EL, s); __CPROVER_assume(v_wf(o, C)); AUD_ARM(P, s)
 #define ARB2(P, C, s, o) VF_INPUT(P##_t, s); view_t o; VIEW(o, P##_SZ, P##_EL, s); __CPROVER_assume(v_wf(o, C))
 #define NOW(P, s, w) view_t w; VIEW(w, P##_SZ, P##_EL, s)
 /* size and every slot (also those behind size) are unchanged */
@@ -231,11 +310,11 @@ _Static_assert(N == 4, "SAME_BYTES enumerates the slots of capacity 4");
 #define H_INSERT_FS(P, C) void h_##P##_insert(void) { INSERT_FS_BODY(P, C, 0) }
 #define H_INSERT_HINT_FS(P, C) void h_##P##_insert_hint(void) { INSERT_FS_BODY(P, C, 3) }
 /* static_set, full set, new key: the insertion is refused (second == false) and nothing changes */
-#define H_INSERT_FULL_SS(P, C) void h_##P##_insert_full(void) { VF_INPUT(P##_t, s); P##_SZ(s) = N; view_t o; VIEW(o, P##_SZ, P##_EL, s); __CPROVER_assume(v_wf(o, C)); VF_INPUT(int, k); VF_INPUT(unsigned char, which); CELL_W(which); __CPROVER_assume(which <= 2); __CPROVER_assume(!v_member(o, C, k)); P##_t s0 = s; \
+#define H_INSERT_FULL_SS(P, C) void h_##P##_insert_full(void) { VF_INPUT(P##_t, s); P##_SZ(s) = N; view_t o; VIEW(o, P##_SZ, P##_EL, s); __CPROVER_assume(v_wf(o, C)); AUD_ARM(P, s); VF_INPUT(int, k); VF_INPUT(unsigned char, which); CELL_W(which); __CPROVER_assume(which <= 2); __CPROVER_assume(!v_member(o, C, k)); P##_t s0 = s; \
   INSERT_CALL_SS(P); (void)it; \
   VF_ASSERT(!ins, "insert of a new key into a full static_set reports failure"); VF_ASSERT(SAME_BYTES(P, s, s0), "insert of a new key into a full static_set changes nothing (size and every slot)"); VF_REACH(); }
 /* flat_set over static_vector, full set, new key: the container's contract check (!full()) fires before anything is modified */
-#define H_INSERT_FULL_FS(P, C) void h_##P##_insert_full(void) { VF_INPUT(P##_t, s); P##_SZ(s) = N; view_t o; VIEW(o, P##_SZ, P##_EL, s); __CPROVER_assume(v_wf(o, C)); VF_INPUT(int, k); VF_INPUT(unsigned char, which); CELL_W(which); __CPROVER_assume(which <= 5); __CPROVER_assume(!v_member(o, C, k)); \
+#define H_INSERT_FULL_FS(P, C) void h_##P##_insert_full(void) { VF_INPUT(P##_t, s); P##_SZ(s) = N; view_t o; VIEW(o, P##_SZ, P##_EL, s); __CPROVER_assume(v_wf(o, C)); AUD_ARM(P, s); VF_INPUT(int, k); VF_INPUT(unsigned char, which); CELL_W(which); __CPROVER_assume(which <= 5); __CPROVER_assume(!v_member(o, C, k)); \
   vf_expect_handler = 1; vf_snap = o; vf_snap_sz = &P##_SZ(s); vf_snap_el = BASE(P, s); int *it = 0; \
   switch (which) { case 0: P##_insert(&s, &k, &it); break; case 1: P##_insert_rv(&s, k, &it); break; case 2: P##_emplace(&s, k, &it); break; \
     case 3: it = P##_insert_hint(&s, BASE(P, s), &k); break; case 4: it = P##_insert_hint_rv(&s, BASE(P, s), k); break; default: it = P##_emplace_hint(&s, BASE(P, s), k); break; } \
@@ -245,10 +324,10 @@ _Static_assert(N == 4, "SAME_BYTES enumerates the slots of capacity 4");
  * view' == fold of reference insertions here; the membership law of the fold is group lemma_insert_range_* */
 #define RANGE_SPEC(C) view_t e = o; for (int i = 0; i < N; ++i) if (i < c) e = sp_insert(e, C, src_in[i])
 #define RANGE_POST(C, what) VF_ASSERT(v_wf(w, C), what ": result is sorted and unique"); VF_ASSERT(v_eq(w, e), what ": the fold of single (reference) insertions in range order")
-#define H_INSERT_RANGE(P, C) void h_##P##_insert_range(void) { VF_INPUT(P##_t, s); VF_INPUT(unsigned char, c); CELL_X(P, s, c); view_t o; VIEW(o, P##_SZ, P##_EL, s); __CPROVER_assume(v_wf(o, C)); __CPROVER_assume(c <= N && o.n + c <= N); VF_BUF(int, src, c, N); \
+#define H_INSERT_RANGE(P, C) void h_##P##_insert_range(void) { VF_INPUT(P##_t, s); VF_INPUT(unsigned char, c); CELL_X(P, s, c); view_t o; VIEW(o, P##_SZ, P##_EL, s); __CPROVER_assume(v_wf(o, C)); __CPROVER_assume(c <= N && o.n + c <= N); VF_BUF(int, src, c, N); AUD_ARM(P, s); \
   P##_insert_range(&s, src, src + c); NOW(P, s, w); RANGE_SPEC(C); RANGE_POST(C, "insert(first,last)"); VF_REACH(); }
 #define H_CTOR_RANGE(P, C) void h_##P##_ctor_range(void) { VF_INPUT(P##_t, s); VF_INPUT(unsigned char, c); CELL_C(c); __CPROVER_assume(c <= N); VF_BUF(int, src, c, N); view_t o; o.n = 0; for (int i = 0; i <= N; ++i) o.a[i] = 0; \
-  P##_ctor_range(&s, src, src + c); NOW(P, s, w); RANGE_SPEC(C); RANGE_POST(C, "set(first,last)"); VF_REACH(); }
+  AUD_ARM(P, s); P##_ctor_range(&s, src, src + c); NOW(P, s, w); RANGE_SPEC(C); RANGE_POST(C, "set(first,last)"); VF_REACH(); }
 
 /* erase(key) */
 #define H_ERASE_KEY(P, C, KNOWN) void h_##P##_erase_key(void) { ARB(P, C, s, o); VF_INPUT(int, k); VF_INPUT(int, g); VF_INPUT(unsigned char, p); VF_INPUT_BOOL(alias); CELL_W(alias); KNOWN; \
@@ -283,6 +362,7 @@ _Static_assert(N == 4, "SAME_BYTES enumerates the slots of capacity 4");
   if (ON(3)) { VIEW(oa, P##_SZ, P##_EL, a); P##_swap(&a, &a); NOW(P, a, wa); VF_ASSERT(v_eq(wa, oa), "self-swap keeps the set"); } \
   if (ON(4)) { VIEW(oa, P##_SZ, P##_EL, a); P##_copy_ctor(&t, &a); NOW(P, t, wt); NOW(P, a, wa); VF_ASSERT(v_eq(wt, oa) && v_eq(wa, oa), "copy construction: equal views, source unchanged"); } \
   if (ON(5)) { VIEW(oa, P##_SZ, P##_EL, a); P##_copy_assign(&b, &a); NOW(P, b, wb); NOW(P, a, wa); VF_ASSERT(v_eq(wb, oa) && v_eq(wa, oa), "copy assignment: equal views, source unchanged"); } \
+  if (ON(6)) { VIEW(oa, P##_SZ, P##_EL, a); P##_copy_assign(&a, &a); NOW(P, a, wa); VF_ASSERT(v_eq(wa, oa), "self copy assignment (a = a) keeps the set"); P##_swap_free(&a, &a); NOW(P, a, wf); VF_ASSERT(v_eq(wf, oa), "swap(a, a) keeps the set"); } \
   VF_REACH(); }
 #define H_CLEAR(P, C) void h_##P##_clear(void) { ARB(P, C, a, oa); P##_clear(&a); VF_ASSERT(P##_SZ(a) == 0 && P##_empty(&a) && P##_size(&a) == 0, "clear: the empty set"); VF_REACH(); }
 
@@ -290,11 +370,12 @@ _Static_assert(N == 4, "SAME_BYTES enumerates the slots of capacity 4");
 #define H_RELATIONAL(P, C) void h_##P##_relational(void) { ARB2(P, C, a, oa); ARB2(P, C, b, ob); int c = sp_lexcmp(oa, ob); _Bool eq = v_eq(oa, ob); \
   if (ON(0)) VF_ASSERT(P##_eq(&a, &b) == eq && P##_ne(&a, &b) == !eq, "== and != compare size and elements"); \
   if (ON(1)) VF_ASSERT(P##_lt(&a, &b) == (c < 0) && P##_ge(&a, &b) == (c >= 0), "< and >= are the lexicographic comparison of the two element sequences"); \
-  if (ON(2)) VF_ASSERT(P##_gt(&a, &b) == (c > 0) && P##_le(&a, &b) == (c <= 0), "> and <= are the lexicographic comparison of the two element sequences"); VF_REACH(); }
+  if (ON(2)) VF_ASSERT(P##_gt(&a, &b) == (c > 0) && P##_le(&a, &b) == (c <= 0), "> and <= are the lexicographic comparison of the two element sequences"); \
+  if (ON(3)) VF_ASSERT(P##_eq(&a, &a) && !P##_ne(&a, &a) && !P##_lt(&a, &a) && P##_le(&a, &a) && !P##_gt(&a, &a) && P##_ge(&a, &a), "a compared with ITSELF (both operands the same object): ==, <=, >= hold, !=, <, > do not"); VF_REACH(); }
 
 /* flat_set: construction from a container (sorts, drops duplicates), sorted_unique construction, extract, replace */
 #define ARB_CONT(P, cn, oc) VF_INPUT(P##_c, cn); CELL_C(P##_CSZ(cn)); view_t oc; VIEW(oc, P##_CSZ, P##_CEL, cn); __CPROVER_assume(oc.n <= N)
-#define H_CTOR_CONT(P, C) void h_##P##_ctor_cont(void) { VF_INPUT(P##_t, s); VF_INPUT(int, g); ARB_CONT(P, cn, oc); P##_ctor_cont(&s, &cn); NOW(P, s, w); \
+#define H_CTOR_CONT(P, C) void h_##P##_ctor_cont(void) { VF_INPUT(P##_t, s); VF_INPUT(int, g); ARB_CONT(P, cn, oc); AUD_ARM(P, s); P##_ctor_cont(&s, &cn); NOW(P, s, w); \
   view_t e; e.n = 0; for (int i = 0; i <= N; ++i) e.a[i] = 0; for (int i = 0; i < N; ++i) if ((unsigned long)i < oc.n) e = sp_insert(e, C, oc.a[i]); \
   VF_ASSERT(v_wf(w, C), "flat_set(container): result is sorted and unique"); VF_ASSERT(v_eq(w, e), "flat_set(container): the sorted, de-duplicated contents of the container (== fold of reference insertions; its membership law: lemma_insert_range)"); VF_REACH(); }
 #define H_CTOR_SORTED(P, C) void h_##P##_ctor_sorted(void) { VF_INPUT(P##_t, s); ARB_CONT(P, cn, oc); __CPROVER_assume(v_wf(oc, C)); P##_ctor_sorted_unique(&s, &cn); NOW(P, s, w); \
@@ -307,9 +388,64 @@ _Static_assert(N == 4, "SAME_BYTES enumerates the slots of capacity 4");
 #define H_REPLACE(P, C) void h_##P##_replace(void) { ARB(P, C, s, o); ARB_CONT(P, cn, oc); __CPROVER_assume(v_wf(oc, C)); P##_replace(&s, &cn); NOW(P, s, w); \
   VF_ASSERT(v_wf(w, C) && v_eq(w, oc), "replace(container): the set holds exactly the (sorted, unique) container"); VF_REACH(); }
 
+/* ---- keys handed over BY REFERENCE that ALIAS an element of the set itself: s.find(*it), s.count(*it), s.lower_bound(*it), s.insert(*it), s.emplace(*it),
+ * s.insert(hint, *it) ... (erase(*it): H_ERASE_KEY).  std::set takes such keys like any other; the key is element p, so it is a member:
+ * find/lower_bound -> that element, upper_bound -> the next one, insert -> (that element, false) and nothing changes.  Cells SW: 0 lower/upper_bound, 1 find/contains/count
+ * (+ equal_range for flat_set), 2 insert/emplace (+ hint overloads for flat_set); the aliased element p is symbolic (fixing it per cell is slower).  The audit (when the comparator is an auditing one) sees the key as a live element. ---- */
+#define ALIAS_HEAD(P, C) ARB(P, C, s, o); VF_INPUT(unsigned char, p); __CPROVER_assume(p < o.n); P##_t s0 = s; int *b = BASE(P, s); const int *kp = &P##_EL(s, p)
+#define ALIAS_LOOKUPS(P) \
+  if (ON(0)) VF_ASSERT(P##_lower_bound(&s, kp) == b + p && P##_clower_bound(&s, kp) == b + p, "lower_bound(*it) == it (const and non-const)"); \
+  if (ON(0)) VF_ASSERT(P##_upper_bound(&s, kp) == b + p + 1 && P##_cupper_bound(&s, kp) == b + p + 1, "upper_bound(*it) == it + 1 (const and non-const)"); \
+  if (ON(1)) VF_ASSERT(P##_find(&s, kp) == b + p && P##_cfind(&s, kp) == b + p, "find(*it) == it (const and non-const)"); \
+  if (ON(1)) VF_ASSERT(P##_contains(&s, kp) && P##_count(&s, kp) == 1, "contains(*it), count(*it) == 1")
+#define ALIAS_EQUAL_RANGE(P) if (ON(1)) { int *lo = 0, *hi = 0; const int *clo = 0, *chi = 0; P##_equal_range(&s, kp, &lo, &hi); P##_cequal_range(&s, kp, &clo, &chi); \
+    VF_ASSERT(lo == b + p && hi == b + p + 1 && clo == b + p && chi == b + p + 1, "equal_range(*it) == (it, it + 1) (const and non-const)"); }
+#define ALIAS_INSERT_SS(P) if (ON(2)) { int *it = 0; _Bool ins = which == 0 ? P##_insert(&s, kp, &it) : P##_emplace_cref(&s, kp, &it); \
+    VF_ASSERT(!ins && it == b + p, "insert(*it) / emplace(*it): (it, false), the key is already there"); }
+#define ALIAS_INSERT_FS(P) if (ON(2)) { int *it = 0; _Bool ins = 0; __CPROVER_assume(hint <= o.n); const int *h = b + hint; \
+    switch (which) { case 0: ins = P##_insert(&s, kp, &it); break; case 1: ins = P##_emplace_cref(&s, kp, &it); break; case 2: it = P##_insert_hint(&s, h, kp); break; default: it = P##_emplace_hint_cref(&s, h, kp); break; } \
+    VF_ASSERT(!ins && it == b + p, "insert(*it) / emplace(*it) / insert(hint, *it) / emplace_hint(hint, *it): iterator to that element, nothing inserted, whatever the hint"); }
+#define ALIAS_TAIL(P) VF_ASSERT(SAME_BYTES(P, s, s0), "calls with a key aliasing an element do not modify the set (size and every slot)"); VF_REACH()
+#define H_ALIAS_SS(P, C) void h_##P##_alias(void) { ALIAS_HEAD(P, C); VF_INPUT(unsigned char, which); __CPROVER_assume(which <= 1); ALIAS_LOOKUPS(P); ALIAS_INSERT_SS(P); ALIAS_TAIL(P); }
+#define H_ALIAS_FS(P, C) void h_##P##_alias(void) { ALIAS_HEAD(P, C); VF_INPUT(unsigned char, which); VF_INPUT(unsigned char, hint); __CPROVER_assume(which <= 3); ALIAS_LOOKUPS(P); ALIAS_EQUAL_RANGE(P); ALIAS_INSERT_FS(P); ALIAS_TAIL(P); }
+#define H_ALIAS_LOOKUP(P, C) void h_##P##_alias(void) { ALIAS_HEAD(P, C); ALIAS_LOOKUPS(P); ALIAS_EQUAL_RANGE(P); ALIAS_TAIL(P); }
+
+/* ---- two-step histories from an arbitrary well-formed set: the second operation meets the state the first one left behind (the stale slot behind
+ * end() after an erase, the adaptor after extract(), the exchanged objects after swap).  Oracle: the composition of the reference operations.
+ * Cells SW: 0 erase(key) then insert, 1 erase(pos) then insert, 2 insert then erase(key). ---- */
+#define H_SEQ_ERASE_INSERT(P, C) void h_##P##_seq_erase_insert(void) { ARB(P, C, s, o); VF_INPUT(int, k1); VF_INPUT(int, k2); VF_INPUT(int, g); VF_INPUT(unsigned char, p); \
+  VF_INPUT(unsigned char, order); CELL_W(order); __CPROVER_assume(order <= 2); view_t m, e; int *it = 0; _Bool ins = 0; unsigned long r = 0; \
+  if (order == 0) { r = P##_erase_key(&s, &k1); m = sp_erase_key(o, C, k1); } \
+  else if (order == 1) { __CPROVER_assume(p < o.n); P##_erase_it(&s, BASE(P, s) + p); m = sp_erase_idx(o, p, p + 1); } \
+  else { __CPROVER_assume(o.n < N || v_member(o, C, k1)); ins = P##_insert(&s, &k1, &it); m = sp_insert(o, C, k1); } \
+  if (order <= 1) { __CPROVER_assume(m.n < N || v_member(m, C, k2)); ins = P##_insert(&s, &k2, &it); e = sp_insert(m, C, k2); VF_ASSERT(ins == !v_member(m, C, k2), "erase; insert(k2).second: true iff k2 is absent AFTER the erase (also when it was the erased key)"); \
+    VF_ASSERT(it == BASE(P, s) + v_find(e, C, k2), "erase; insert(k2).first: iterator to the element equivalent to k2"); } \
+  else { r = P##_erase_key(&s, &k2); e = sp_erase_key(m, C, k2); VF_ASSERT(r == (v_member(m, C, k2) ? 1 : 0), "insert; erase(k2) returns 1 iff k2 is a member AFTER the insertion (also when it is the inserted key)"); } \
+  NOW(P, s, w); VF_ASSERT(v_wf(w, C) && v_eq(w, e), "two-step history: the set equals the composition of the reference operations (sorted, unique, every element)"); \
+  VF_ASSERT(P##_cfind(&s, &g) == BASE(P, s) + v_find(e, C, g) && P##_size(&s) == e.n, "two-step history: find(g) (const) and size afterwards follow the new contents, for every key g"); VF_REACH(); }
+/* swap, then look up in the exchanged objects (cells SW: member / free swap); the audit follows the object that is looked up */
+#define H_SEQ_SWAP_LOOKUP(P, C) void h_##P##_seq_swap_lookup(void) { ARB2(P, C, a, oa); ARB2(P, C, b, ob); VF_INPUT(int, g); VF_INPUT_BOOL(fr); CELL_W(fr); \
+  if (fr) P##_swap_free(&a, &b); else P##_swap(&a, &b); \
+  AUD_ARM(P, a); VF_ASSERT(P##_cfind(&a, &g) == BASE(P, a) + v_find(ob, C, g) && P##_size(&a) == ob.n, "swap; a.find(g) / size answer for b's former contents"); \
+  AUD_ARM(P, b); VF_ASSERT(P##_lower_bound(&b, &g) == BASE(P, b) + v_lb(oa, C, g) && P##_size(&b) == oa.n, "swap; b.lower_bound(g) / size answer for a's former contents"); VF_REACH(); }
+/* extract(): [flat.set.modifiers] "*this is emptied" WHATEVER the adapted container's move does; the adaptor is an empty, usable set afterwards */
+#define SEQ_EXTRACT_HEAD(P, C) ARB(P, C, s, o); VF_INPUT(int, g); VF_INPUT(P##_c, cn); P##_extract(&cn, &s); view_t oc; VIEW(oc, P##_CSZ, P##_CEL, cn); int *b = BASE(P, s); \
+  VF_ASSERT(v_eq(oc, o), "extract(): returns the container holding the elements in order"); \
+  VF_ASSERT(P##_SZ(s) == 0 && P##_size(&s) == 0 && P##_empty(&s) && P##_begin(&s) == b && P##_end(&s) == b && P##_cbegin(&s) == P##_cend(&s), "extract(): the adaptor is emptied (size, empty, begin == end) whatever the container's move leaves behind"); \
+  VF_ASSERT(P##_find(&s, &g) == b && P##_cfind(&s, &g) == b && !P##_contains(&s, &g) && P##_count(&s, &g) == 0 && P##_lower_bound(&s, &g) == b && P##_cupper_bound(&s, &g) == b, "extract(): no key g is found in the emptied adaptor")
+#define H_SEQ_EXTRACT_LOOKUP(P, C) void h_##P##_seq_extract(void) { SEQ_EXTRACT_HEAD(P, C); P##_clear(&s); VF_ASSERT(P##_empty(&s), "extract(); clear(): still empty"); VF_REACH(); }
+/* ... and it can be refilled: every key is NEW for the emptied set; erase finds nothing; replace() installs a container again.  Cells SW: second step */
+#define H_SEQ_EXTRACT_MOD(P, C) void h_##P##_seq_extract(void) { SEQ_EXTRACT_HEAD(P, C); VF_INPUT(int, k); VF_INPUT(unsigned char, step); CELL_W(step); __CPROVER_assume(step <= 2); int *it = 0; \
+  if (step == 0) { _Bool ins = P##_insert(&s, &k, &it); NOW(P, s, w); VF_ASSERT(ins && it == b && w.n == 1 && w.a[0] == k, "extract(); insert(k): k is new for the emptied set - (begin(), true), the set is {k} (also when k was a member before extract)"); \
+    VF_ASSERT(P##_contains(&s, &g) == equiv(C, g, k) && P##_size(&s) == 1, "extract(); insert(k): exactly k is a member afterwards"); \
+    P##_replace(&s, &cn); NOW(P, s, w2); VF_ASSERT(v_eq(w2, o), "extract(); insert(k); replace(extracted container): the former contents are back, k is gone unless it was among them"); } \
+  if (step == 1) { unsigned long r = P##_erase_key(&s, &k); NOW(P, s, w); VF_ASSERT(r == 0 && w.n == 0, "extract(); erase(k): nothing to remove"); it = P##_emplace_hint(&s, b, k); NOW(P, s, w2); VF_ASSERT(it == b && w2.n == 1 && w2.a[0] == k, "extract(); emplace_hint(k): the set is {k}"); } \
+  if (step == 2) { P##_replace(&s, &cn); NOW(P, s, w); VF_ASSERT(v_wf(w, C) && v_eq(w, o), "extract(); replace(extracted container): the set is as before"); \
+    VF_ASSERT(P##_cfind(&s, &g) == b + v_find(o, C, g) && P##_contains(&s, &g) == v_member(o, C, g), "extract(); replace(): lookups answer as before"); } VF_REACH(); }
+
 /* flat_multiset: construction from an unsorted container sorts it (a permutation: every key keeps its multiplicity) */
 #define H_MULTI(P, C) void h_##P##_ctor(void) { VF_INPUT(P##_t, s); VF_INPUT(P##_t, t); VF_INPUT(P##_t, d); VF_INPUT(int, g); ARB_CONT(P, cn, oc); \
-  P##_ctor_cont(&s, &cn); NOW(P, s, w); \
+  AUD_ARM(P, s); P##_ctor_cont(&s, &cn); NOW(P, s, w); \
   VF_ASSERT(w.n == oc.n && v_sorted(w, C, 0), "flat_multiset(container): same size, sorted under the comparator (equivalent keys allowed)"); \
   VF_ASSERT(v_count(w, g) == v_count(oc, g), "flat_multiset(container): every key g keeps its multiplicity (the result is a permutation of the container)"); \
   int *b = BASE(P, s); VF_ASSERT(P##_begin(&s) == b && P##_end(&s) == b + w.n && P##_cbegin(&s) == b && P##_cend(&s) == b + w.n && P##_size(&s) == w.n && P##_empty(&s) == (w.n == 0) && P##_max_size(&s) == N, "begin/end/size/empty/max_size follow the view"); \
@@ -361,9 +497,9 @@ H_ERASE_KEY(ss, LT, (void)0)
 H_ERASE_IT_SS(ss, LT)
 /*@GROUP name=ss_erase_range props=C09,C02 kind=K unwind=6 solver=kissat@*/
 H_ERASE_RANGE(ss, LT, (void)0)
-/*@GROUP name=ss_whole props=C09,C02 kind=K unwind=6 solver=kissat split=SW:0:5@*/
+/*@GROUP name=ss_whole props=C09,C02 kind=K unwind=6 solver=kissat split=SW:0:6@*/
 H_WHOLE(ss, LT)
-/*@GROUP name=ss_relational props=C09,C02 kind=K unwind=6 solver=kissat split=SW:0:2@*/
+/*@GROUP name=ss_relational props=C09,C02 kind=K unwind=6 solver=kissat split=SW:0:3@*/
 H_RELATIONAL(ss, LT)
 /*@GROUP name=ssg_lookup props=C09,C02 kind=K unwind=6 solver=kissat split=SW:0:3@*/
 H_LOOKUP(ssg, GT)
@@ -387,9 +523,9 @@ H_ERASE_KEY(ssg, GT, (void)0)
 H_ERASE_IT_SS(ssg, GT)
 /*@GROUP name=ssg_erase_range props=C09,C02 kind=K unwind=6 solver=kissat@*/
 H_ERASE_RANGE(ssg, GT, (void)0)
-/*@GROUP name=ssg_whole props=C09,C02 kind=K unwind=6 solver=kissat split=SW:0:5@*/
+/*@GROUP name=ssg_whole props=C09,C02 kind=K unwind=6 solver=kissat split=SW:0:6@*/
 H_WHOLE(ssg, GT)
-/*@GROUP name=ssg_relational props=C09,C02 kind=K unwind=6 solver=kissat split=SW:0:2@*/
+/*@GROUP name=ssg_relational props=C09,C02 kind=K unwind=6 solver=kissat split=SW:0:3@*/
 H_RELATIONAL(ssg, GT)
 /*@GROUP name=sst_lookup props=C09,C02 kind=K unwind=6 solver=kissat split=SW:0:3@*/
 H_LOOKUP(sst, LT)
@@ -413,9 +549,9 @@ H_ERASE_KEY(sst, LT, (void)0)
 H_ERASE_IT_SS(sst, LT)
 /*@GROUP name=sst_erase_range props=C09,C02 kind=K unwind=6 solver=kissat@*/
 H_ERASE_RANGE(sst, LT, (void)0)
-/*@GROUP name=sst_whole props=C09,C02 kind=K unwind=6 solver=kissat split=SW:0:5@*/
+/*@GROUP name=sst_whole props=C09,C02 kind=K unwind=6 solver=kissat split=SW:0:6@*/
 H_WHOLE(sst, LT)
-/*@GROUP name=sst_relational props=C09,C02 kind=K unwind=6 solver=kissat split=SW:0:2@*/
+/*@GROUP name=sst_relational props=C09,C02 kind=K unwind=6 solver=kissat split=SW:0:3@*/
 H_RELATIONAL(sst, LT)
 /*@GROUP name=sst_lookup_h props=C09,C02 kind=K unwind=6 solver=kissat split=SW:0:1@*/
 H_LOOKUP_H(sst, LT)
@@ -458,9 +594,9 @@ H_ERASE_IT_FS(fs, LT)
 H_ERASE_RANGE(fs, LT, (void)0)
 /*@GROUP name=fs_erase_if props=C09,C02 kind=K unwind=6 solver=kissat@*/
 H_ERASE_IF(fs, LT)
-/*@GROUP name=fs_whole props=C09,C02 kind=K unwind=6 solver=kissat split=SW:0:5@*/
+/*@GROUP name=fs_whole props=C09,C02 kind=K unwind=6 solver=kissat split=SW:0:6@*/
 H_WHOLE(fs, LT)
-/*@GROUP name=fs_relational props=C09,C02 kind=K unwind=6 solver=kissat split=SW:0:2@*/
+/*@GROUP name=fs_relational props=C09,C02 kind=K unwind=6 solver=kissat split=SW:0:3@*/
 H_RELATIONAL(fs, LT)
 /*@GROUP name=fsg_lookup props=C09,C02 kind=K unwind=6 solver=kissat split=SW:0:3@*/
 H_LOOKUP(fsg, GT)
@@ -498,9 +634,9 @@ H_ERASE_IT_FS(fsg, GT)
 H_ERASE_RANGE(fsg, GT, (void)0)
 /*@GROUP name=fsg_erase_if props=C09,C02 kind=K unwind=6 solver=kissat@*/
 H_ERASE_IF(fsg, GT)
-/*@GROUP name=fsg_whole props=C09,C02 kind=K unwind=6 solver=kissat split=SW:0:5@*/
+/*@GROUP name=fsg_whole props=C09,C02 kind=K unwind=6 solver=kissat split=SW:0:6@*/
 H_WHOLE(fsg, GT)
-/*@GROUP name=fsg_relational props=C09,C02 kind=K unwind=6 solver=kissat split=SW:0:2@*/
+/*@GROUP name=fsg_relational props=C09,C02 kind=K unwind=6 solver=kissat split=SW:0:3@*/
 H_RELATIONAL(fsg, GT)
 /*@GROUP name=fst_lookup props=C09,C02 kind=K unwind=6 solver=kissat split=SW:0:3@*/
 H_LOOKUP(fst, LT)
@@ -538,9 +674,9 @@ H_ERASE_IT_FS(fst, LT)
 H_ERASE_RANGE(fst, LT, (void)0)
 /*@GROUP name=fst_erase_if props=C09,C02 kind=K unwind=6 solver=kissat@*/
 H_ERASE_IF(fst, LT)
-/*@GROUP name=fst_whole props=C09,C02 kind=K unwind=6 solver=kissat split=SW:0:5@*/
+/*@GROUP name=fst_whole props=C09,C02 kind=K unwind=6 solver=kissat split=SW:0:6@*/
 H_WHOLE(fst, LT)
-/*@GROUP name=fst_relational props=C09,C02 kind=K unwind=6 solver=kissat split=SW:0:2@*/
+/*@GROUP name=fst_relational props=C09,C02 kind=K unwind=6 solver=kissat split=SW:0:3@*/
 H_RELATIONAL(fst, LT)
 /*@GROUP name=fst_lookup_h props=C09,C02 kind=K unwind=6 solver=kissat split=SW:0:1@*/
 H_LOOKUP_H(fst, LT)
@@ -563,8 +699,235 @@ H_CTOR_SORTED(fsi, LT)
 H_EXTRACT(fsi, LT, VF_KNOWN(C09_fs_extract_empty, o.n > 0))
 /*@GROUP name=fsi_clear props=C09,C02 kind=K unwind=6 solver=kissat@*/
 H_CLEAR(fsi, LT)
-/*@GROUP name=fsi_relational props=C09,C02 kind=K unwind=6 solver=kissat split=SW:0:2@*/
+/*@GROUP name=fsi_relational props=C09,C02 kind=K unwind=6 solver=kissat split=SW:0:3@*/
 H_RELATIONAL(fsi, LT)
+/* Tiers of the groups below.  quick: every entry point with aud_less over each container (ssa_, fsa_, fia_, fv_), the heterogeneous find/contains/count
+ * with aud_less_t, aliasing keys for static_set and flat_set (ssa_, fsa_), one instantiation of every two-step history.  thorough: the same templates for aud_greater / aud_less_t
+ * and for the etl::less / greater / less<> instantiations (identical template source, other comparator type). */
+/* =================================================================== static_set, auditing comparators; aliasing keys; two-step histories */
+/*@GROUP name=ssa_lookup props=C09,C02 kind=K unwind=6 solver=kissat split=SW:0:3@*/
+H_LOOKUP(ssa, LT)
+/*@GROUP name=ssa_insert props=C09,C02 kind=K unwind=6 solver=kissat split=SW:0:2 unwindset=_ZN3etl6rotateIPiEET_S2_S2_S2_.0:2@*/
+H_INSERT_SS(ssa, LT)
+/*@GROUP name=ssa_insert_full props=C09,C02 kind=K unwind=6 solver=kissat split=SW:0:2 unwindset=_ZN3etl6rotateIPiEET_S2_S2_S2_.0:2@*/
+H_INSERT_FULL_SS(ssa, LT)
+/*@GROUP name=ssa_erase_key props=C09,C02 kind=K unwind=6 solver=kissat split=SW:0:1@*/
+H_ERASE_KEY(ssa, LT, (void)0)
+/*@GROUP name=ssa_insert_range props=C09,C02 kind=K unwind=6 solver=kissat split=SX:0:10 unwindset=_ZN3etl6rotateIPiEET_S2_S2_S2_.0:2 tier=thorough@*/
+H_INSERT_RANGE(ssa, LT)
+/*@GROUP name=ssa_alias props=C09,C02 kind=K unwind=6 solver=kissat split=SW:0:2 unwindset=_ZN3etl6rotateIPiEET_S2_S2_S2_.0:2@*/
+H_ALIAS_SS(ssa, LT)
+/*@GROUP name=ssa_seq_erase_insert props=C09,C02 kind=K unwind=6 solver=kissat split=SW:0:2 unwindset=_ZN3etl6rotateIPiEET_S2_S2_S2_.0:2 tier=thorough@*/
+H_SEQ_ERASE_INSERT(ssa, LT)
+/*@GROUP name=ssag_lookup props=C09,C02 kind=K unwind=6 solver=kissat split=SW:0:3 tier=thorough@*/
+H_LOOKUP(ssag, GT)
+/*@GROUP name=ssag_insert props=C09,C02 kind=K unwind=6 solver=kissat split=SW:0:2 unwindset=_ZN3etl6rotateIPiEET_S2_S2_S2_.0:2 tier=thorough@*/
+H_INSERT_SS(ssag, GT)
+/*@GROUP name=ssag_insert_full props=C09,C02 kind=K unwind=6 solver=kissat split=SW:0:2 unwindset=_ZN3etl6rotateIPiEET_S2_S2_S2_.0:2 tier=thorough@*/
+H_INSERT_FULL_SS(ssag, GT)
+/*@GROUP name=ssag_erase_key props=C09,C02 kind=K unwind=6 solver=kissat split=SW:0:1 tier=thorough@*/
+H_ERASE_KEY(ssag, GT, (void)0)
+/*@GROUP name=ssag_insert_range props=C09,C02 kind=K unwind=6 solver=kissat split=SX:0:10 unwindset=_ZN3etl6rotateIPiEET_S2_S2_S2_.0:2 tier=thorough@*/
+H_INSERT_RANGE(ssag, GT)
+/*@GROUP name=ssag_alias props=C09,C02 kind=K unwind=6 solver=kissat split=SW:0:2 unwindset=_ZN3etl6rotateIPiEET_S2_S2_S2_.0:2 tier=thorough@*/
+H_ALIAS_SS(ssag, GT)
+/*@GROUP name=ssag_seq_erase_insert props=C09,C02 kind=K unwind=6 solver=kissat split=SW:0:2 unwindset=_ZN3etl6rotateIPiEET_S2_S2_S2_.0:2 tier=thorough@*/
+H_SEQ_ERASE_INSERT(ssag, GT)
+/*@GROUP name=ssat_lookup props=C09,C02 kind=K unwind=6 solver=kissat split=SW:0:3 tier=thorough@*/
+H_LOOKUP(ssat, LT)
+/*@GROUP name=ssat_insert props=C09,C02 kind=K unwind=6 solver=kissat split=SW:0:2 unwindset=_ZN3etl6rotateIPiEET_S2_S2_S2_.0:2 tier=thorough@*/
+H_INSERT_SS(ssat, LT)
+/*@GROUP name=ssat_insert_full props=C09,C02 kind=K unwind=6 solver=kissat split=SW:0:2 unwindset=_ZN3etl6rotateIPiEET_S2_S2_S2_.0:2 tier=thorough@*/
+H_INSERT_FULL_SS(ssat, LT)
+/*@GROUP name=ssat_erase_key props=C09,C02 kind=K unwind=6 solver=kissat split=SW:0:1 tier=thorough@*/
+H_ERASE_KEY(ssat, LT, (void)0)
+/*@GROUP name=ssat_insert_range props=C09,C02 kind=K unwind=6 solver=kissat split=SX:0:10 unwindset=_ZN3etl6rotateIPiEET_S2_S2_S2_.0:2 tier=thorough@*/
+H_INSERT_RANGE(ssat, LT)
+/*@GROUP name=ssat_alias props=C09,C02 kind=K unwind=6 solver=kissat split=SW:0:2 unwindset=_ZN3etl6rotateIPiEET_S2_S2_S2_.0:2 tier=thorough@*/
+H_ALIAS_SS(ssat, LT)
+/*@GROUP name=ssat_seq_erase_insert props=C09,C02 kind=K unwind=6 solver=kissat split=SW:0:2 unwindset=_ZN3etl6rotateIPiEET_S2_S2_S2_.0:2 tier=thorough@*/
+H_SEQ_ERASE_INSERT(ssat, LT)
+/*@GROUP name=ssat_lookup_h props=C09,C02 kind=K unwind=6 solver=kissat split=SW:0:1 tier=thorough@*/
+H_LOOKUP_H(ssat, LT)
+/*@GROUP name=ssat_find_h props=C09,C02 kind=K unwind=6 solver=kissat split=SW:0:1@*/
+H_FIND_H(ssat, LT, (void)0)
+/*@GROUP name=ss_alias props=C09,C02 kind=K unwind=6 solver=kissat split=SW:0:2 unwindset=_ZN3etl6rotateIPiEET_S2_S2_S2_.0:2 tier=thorough@*/
+H_ALIAS_SS(ss, LT)
+/*@GROUP name=ss_seq_erase_insert props=C09,C02 kind=K unwind=6 solver=kissat split=SW:0:2 unwindset=_ZN3etl6rotateIPiEET_S2_S2_S2_.0:2@*/
+H_SEQ_ERASE_INSERT(ss, LT)
+/*@GROUP name=ss_seq_swap_lookup props=C09,C02 kind=K unwind=6 solver=kissat split=SW:0:1 tier=thorough@*/
+H_SEQ_SWAP_LOOKUP(ss, LT)
+/*@GROUP name=ssg_alias props=C09,C02 kind=K unwind=6 solver=kissat split=SW:0:2 unwindset=_ZN3etl6rotateIPiEET_S2_S2_S2_.0:2 tier=thorough@*/
+H_ALIAS_SS(ssg, GT)
+/*@GROUP name=ssg_seq_erase_insert props=C09,C02 kind=K unwind=6 solver=kissat split=SW:0:2 unwindset=_ZN3etl6rotateIPiEET_S2_S2_S2_.0:2 tier=thorough@*/
+H_SEQ_ERASE_INSERT(ssg, GT)
+/*@GROUP name=ssg_seq_swap_lookup props=C09,C02 kind=K unwind=6 solver=kissat split=SW:0:1 tier=thorough@*/
+H_SEQ_SWAP_LOOKUP(ssg, GT)
+/*@GROUP name=sst_alias props=C09,C02 kind=K unwind=6 solver=kissat split=SW:0:2 unwindset=_ZN3etl6rotateIPiEET_S2_S2_S2_.0:2 tier=thorough@*/
+H_ALIAS_SS(sst, LT)
+/*@GROUP name=sst_seq_erase_insert props=C09,C02 kind=K unwind=6 solver=kissat split=SW:0:2 unwindset=_ZN3etl6rotateIPiEET_S2_S2_S2_.0:2 tier=thorough@*/
+H_SEQ_ERASE_INSERT(sst, LT)
+/*@GROUP name=sst_seq_swap_lookup props=C09,C02 kind=K unwind=6 solver=kissat split=SW:0:1 tier=thorough@*/
+H_SEQ_SWAP_LOOKUP(sst, LT)
+/* =================================================================== flat_set over static_vector, auditing comparators; aliasing keys; two-step histories */
+/*@GROUP name=fsa_lookup props=C09,C02 kind=K unwind=6 solver=kissat split=SW:0:3@*/
+H_LOOKUP(fsa, LT)
+/*@GROUP name=fsa_equal_range props=C09,C02 kind=K unwind=6 solver=kissat split=SW:0:1@*/
+H_EQUAL_RANGE(fsa, LT)
+/*@GROUP name=fsa_insert props=C09,C02 kind=K unwind=6 solver=kissat split=SW:0:2 unwindset=_ZN3etl6rotateIPiEET_S2_S2_S2_.0:2@*/
+H_INSERT_FS(fsa, LT)
+/*@GROUP name=fsa_insert_hint props=C09,C02 kind=K unwind=6 solver=kissat split=SW:3:5 unwindset=_ZN3etl6rotateIPiEET_S2_S2_S2_.0:2 tier=thorough@*/
+H_INSERT_HINT_FS(fsa, LT)
+/*@GROUP name=fsa_insert_full props=C09,C02,C05 kind=K unwind=6 solver=kissat split=SW:0:5 unwindset=_ZN3etl6rotateIPiEET_S2_S2_S2_.0:2@*/
+H_INSERT_FULL_FS(fsa, LT)
+/*@GROUP name=fsa_erase_key props=C09,C02 kind=K unwind=6 solver=kissat split=SW:0:1@*/
+H_ERASE_KEY(fsa, LT, (void)0)
+/*@GROUP name=fsa_ctor_cont props=C09,C02 kind=K unwind=6 solver=kissat split=SC:0:4 unwindset=_ZN3etl6rotateIPiEET_S2_S2_S2_.0:2 tier=thorough@*/
+H_CTOR_CONT(fsa, LT)
+/*@GROUP name=fsa_insert_range props=C09,C02 kind=K unwind=6 solver=kissat split=SX:0:10 unwindset=_ZN3etl6rotateIPiEET_S2_S2_S2_.0:2 tier=thorough@*/
+H_INSERT_RANGE(fsa, LT)
+/*@GROUP name=fsa_alias props=C09,C02 kind=K unwind=6 solver=kissat split=SW:0:2 unwindset=_ZN3etl6rotateIPiEET_S2_S2_S2_.0:2@*/
+H_ALIAS_FS(fsa, LT)
+/*@GROUP name=fsa_seq_erase_insert props=C09,C02 kind=K unwind=6 solver=kissat split=SW:0:2 unwindset=_ZN3etl6rotateIPiEET_S2_S2_S2_.0:2 tier=thorough@*/
+H_SEQ_ERASE_INSERT(fsa, LT)
+/*@GROUP name=fsa_seq_extract props=C09,C02 kind=K unwind=6 solver=kissat split=SW:0:2 unwindset=_ZN3etl6rotateIPiEET_S2_S2_S2_.0:2 tier=thorough@*/
+H_SEQ_EXTRACT_MOD(fsa, LT)
+/*@GROUP name=fsag_lookup props=C09,C02 kind=K unwind=6 solver=kissat split=SW:0:3 tier=thorough@*/
+H_LOOKUP(fsag, GT)
+/*@GROUP name=fsag_equal_range props=C09,C02 kind=K unwind=6 solver=kissat split=SW:0:1 tier=thorough@*/
+H_EQUAL_RANGE(fsag, GT)
+/*@GROUP name=fsag_insert props=C09,C02 kind=K unwind=6 solver=kissat split=SW:0:2 unwindset=_ZN3etl6rotateIPiEET_S2_S2_S2_.0:2 tier=thorough@*/
+H_INSERT_FS(fsag, GT)
+/*@GROUP name=fsag_insert_hint props=C09,C02 kind=K unwind=6 solver=kissat split=SW:3:5 unwindset=_ZN3etl6rotateIPiEET_S2_S2_S2_.0:2 tier=thorough@*/
+H_INSERT_HINT_FS(fsag, GT)
+/*@GROUP name=fsag_insert_full props=C09,C02,C05 kind=K unwind=6 solver=kissat split=SW:0:5 unwindset=_ZN3etl6rotateIPiEET_S2_S2_S2_.0:2 tier=thorough@*/
+H_INSERT_FULL_FS(fsag, GT)
+/*@GROUP name=fsag_erase_key props=C09,C02 kind=K unwind=6 solver=kissat split=SW:0:1 tier=thorough@*/
+H_ERASE_KEY(fsag, GT, (void)0)
+/*@GROUP name=fsag_ctor_cont props=C09,C02 kind=K unwind=6 solver=kissat split=SC:0:4 unwindset=_ZN3etl6rotateIPiEET_S2_S2_S2_.0:2 tier=thorough@*/
+H_CTOR_CONT(fsag, GT)
+/*@GROUP name=fsag_insert_range props=C09,C02 kind=K unwind=6 solver=kissat split=SX:0:10 unwindset=_ZN3etl6rotateIPiEET_S2_S2_S2_.0:2 tier=thorough@*/
+H_INSERT_RANGE(fsag, GT)
+/*@GROUP name=fsag_alias props=C09,C02 kind=K unwind=6 solver=kissat split=SW:0:2 unwindset=_ZN3etl6rotateIPiEET_S2_S2_S2_.0:2 tier=thorough@*/
+H_ALIAS_FS(fsag, GT)
+/*@GROUP name=fsag_seq_erase_insert props=C09,C02 kind=K unwind=6 solver=kissat split=SW:0:2 unwindset=_ZN3etl6rotateIPiEET_S2_S2_S2_.0:2 tier=thorough@*/
+H_SEQ_ERASE_INSERT(fsag, GT)
+/*@GROUP name=fsag_seq_extract props=C09,C02 kind=K unwind=6 solver=kissat split=SW:0:2 unwindset=_ZN3etl6rotateIPiEET_S2_S2_S2_.0:2 tier=thorough@*/
+H_SEQ_EXTRACT_MOD(fsag, GT)
+/*@GROUP name=fsat_lookup props=C09,C02 kind=K unwind=6 solver=kissat split=SW:0:3 tier=thorough@*/
+H_LOOKUP(fsat, LT)
+/*@GROUP name=fsat_equal_range props=C09,C02 kind=K unwind=6 solver=kissat split=SW:0:1 tier=thorough@*/
+H_EQUAL_RANGE(fsat, LT)
+/*@GROUP name=fsat_insert props=C09,C02 kind=K unwind=6 solver=kissat split=SW:0:2 unwindset=_ZN3etl6rotateIPiEET_S2_S2_S2_.0:2 tier=thorough@*/
+H_INSERT_FS(fsat, LT)
+/*@GROUP name=fsat_insert_hint props=C09,C02 kind=K unwind=6 solver=kissat split=SW:3:5 unwindset=_ZN3etl6rotateIPiEET_S2_S2_S2_.0:2 tier=thorough@*/
+H_INSERT_HINT_FS(fsat, LT)
+/*@GROUP name=fsat_insert_full props=C09,C02,C05 kind=K unwind=6 solver=kissat split=SW:0:5 unwindset=_ZN3etl6rotateIPiEET_S2_S2_S2_.0:2 tier=thorough@*/
+H_INSERT_FULL_FS(fsat, LT)
+/*@GROUP name=fsat_erase_key props=C09,C02 kind=K unwind=6 solver=kissat split=SW:0:1 tier=thorough@*/
+H_ERASE_KEY(fsat, LT, (void)0)
+/*@GROUP name=fsat_ctor_cont props=C09,C02 kind=K unwind=6 solver=kissat split=SC:0:4 unwindset=_ZN3etl6rotateIPiEET_S2_S2_S2_.0:2 tier=thorough@*/
+H_CTOR_CONT(fsat, LT)
+/*@GROUP name=fsat_insert_range props=C09,C02 kind=K unwind=6 solver=kissat split=SX:0:10 unwindset=_ZN3etl6rotateIPiEET_S2_S2_S2_.0:2 tier=thorough@*/
+H_INSERT_RANGE(fsat, LT)
+/*@GROUP name=fsat_alias props=C09,C02 kind=K unwind=6 solver=kissat split=SW:0:2 unwindset=_ZN3etl6rotateIPiEET_S2_S2_S2_.0:2 tier=thorough@*/
+H_ALIAS_FS(fsat, LT)
+/*@GROUP name=fsat_seq_erase_insert props=C09,C02 kind=K unwind=6 solver=kissat split=SW:0:2 unwindset=_ZN3etl6rotateIPiEET_S2_S2_S2_.0:2 tier=thorough@*/
+H_SEQ_ERASE_INSERT(fsat, LT)
+/*@GROUP name=fsat_seq_extract props=C09,C02 kind=K unwind=6 solver=kissat split=SW:0:2 unwindset=_ZN3etl6rotateIPiEET_S2_S2_S2_.0:2 tier=thorough@*/
+H_SEQ_EXTRACT_MOD(fsat, LT)
+/*@GROUP name=fsat_lookup_h props=C09,C02 kind=K unwind=6 solver=kissat split=SW:0:1 tier=thorough@*/
+H_LOOKUP_H(fsat, LT)
+/*@GROUP name=fsat_find_h props=C09,C02 kind=K unwind=6 solver=kissat split=SW:0:1@*/
+H_FIND_H(fsat, LT, (void)0)
+/*@GROUP name=fsat_equal_range_h props=C09,C02 kind=K unwind=6 solver=kissat split=SW:0:1 tier=thorough@*/
+H_EQUAL_RANGE_H(fsat, LT)
+/*@GROUP name=fs_alias props=C09,C02 kind=K unwind=6 solver=kissat split=SW:0:2 unwindset=_ZN3etl6rotateIPiEET_S2_S2_S2_.0:2 tier=thorough@*/
+H_ALIAS_FS(fs, LT)
+/*@GROUP name=fs_seq_erase_insert props=C09,C02 kind=K unwind=6 solver=kissat split=SW:0:2 unwindset=_ZN3etl6rotateIPiEET_S2_S2_S2_.0:2 tier=thorough@*/
+H_SEQ_ERASE_INSERT(fs, LT)
+/*@GROUP name=fs_seq_extract props=C09,C02 kind=K unwind=6 solver=kissat split=SW:0:2 unwindset=_ZN3etl6rotateIPiEET_S2_S2_S2_.0:2@*/
+H_SEQ_EXTRACT_MOD(fs, LT)
+/*@GROUP name=fs_seq_swap_lookup props=C09,C02 kind=K unwind=6 solver=kissat split=SW:0:1@*/
+H_SEQ_SWAP_LOOKUP(fs, LT)
+/*@GROUP name=fsg_alias props=C09,C02 kind=K unwind=6 solver=kissat split=SW:0:2 unwindset=_ZN3etl6rotateIPiEET_S2_S2_S2_.0:2 tier=thorough@*/
+H_ALIAS_FS(fsg, GT)
+/*@GROUP name=fsg_seq_erase_insert props=C09,C02 kind=K unwind=6 solver=kissat split=SW:0:2 unwindset=_ZN3etl6rotateIPiEET_S2_S2_S2_.0:2 tier=thorough@*/
+H_SEQ_ERASE_INSERT(fsg, GT)
+/*@GROUP name=fsg_seq_extract props=C09,C02 kind=K unwind=6 solver=kissat split=SW:0:2 unwindset=_ZN3etl6rotateIPiEET_S2_S2_S2_.0:2 tier=thorough@*/
+H_SEQ_EXTRACT_MOD(fsg, GT)
+/*@GROUP name=fsg_seq_swap_lookup props=C09,C02 kind=K unwind=6 solver=kissat split=SW:0:1 tier=thorough@*/
+H_SEQ_SWAP_LOOKUP(fsg, GT)
+/*@GROUP name=fst_alias props=C09,C02 kind=K unwind=6 solver=kissat split=SW:0:2 unwindset=_ZN3etl6rotateIPiEET_S2_S2_S2_.0:2 tier=thorough@*/
+H_ALIAS_FS(fst, LT)
+/*@GROUP name=fst_seq_erase_insert props=C09,C02 kind=K unwind=6 solver=kissat split=SW:0:2 unwindset=_ZN3etl6rotateIPiEET_S2_S2_S2_.0:2 tier=thorough@*/
+H_SEQ_ERASE_INSERT(fst, LT)
+/*@GROUP name=fst_seq_extract props=C09,C02 kind=K unwind=6 solver=kissat split=SW:0:2 unwindset=_ZN3etl6rotateIPiEET_S2_S2_S2_.0:2 tier=thorough@*/
+H_SEQ_EXTRACT_MOD(fst, LT)
+/*@GROUP name=fst_seq_swap_lookup props=C09,C02 kind=K unwind=6 solver=kissat split=SW:0:1 tier=thorough@*/
+H_SEQ_SWAP_LOOKUP(fst, LT)
+/* =================================================================== flat_set over inplace_vector: auditing comparator, aliasing keys, extract (lookups only) */
+/*@GROUP name=fsi_alias props=C09,C02 kind=K unwind=6 solver=kissat split=SW:0:1 tier=thorough@*/
+H_ALIAS_LOOKUP(fsi, LT)
+/*@GROUP name=fsi_seq_extract props=C09,C02 kind=K unwind=6 solver=kissat@*/
+H_SEQ_EXTRACT_LOOKUP(fsi, LT)
+/*@GROUP name=fia_lookup props=C09,C02 kind=K unwind=6 solver=kissat split=SW:0:3@*/
+H_LOOKUP(fia, LT)
+/*@GROUP name=fia_equal_range props=C09,C02 kind=K unwind=6 solver=kissat split=SW:0:1@*/
+H_EQUAL_RANGE(fia, LT)
+/*@GROUP name=fia_ctor_sorted props=C09,C02 kind=K unwind=6 solver=kissat@*/
+H_CTOR_SORTED(fia, LT)
+/*@GROUP name=fia_alias props=C09,C02 kind=K unwind=6 solver=kissat split=SW:0:1 tier=thorough@*/
+H_ALIAS_LOOKUP(fia, LT)
+/*@GROUP name=fia_seq_extract props=C09,C02 kind=K unwind=6 solver=kissat@*/
+H_SEQ_EXTRACT_LOOKUP(fia, LT)
+/* =================================================================== flat_set over vf::fixed_vec (trivially copyable, size_t size), auditing comparator: complete API */
+/*@GROUP name=fv_lookup props=C09,C02 kind=K unwind=6 solver=kissat split=SW:0:3@*/
+H_LOOKUP(fv, LT)
+/*@GROUP name=fv_equal_range props=C09,C02 kind=K unwind=6 solver=kissat split=SW:0:1@*/
+H_EQUAL_RANGE(fv, LT)
+/*@GROUP name=fv_observe props=C09,C02 kind=K unwind=6 solver=kissat@*/
+H_OBSERVE_FS(fv, LT)
+/*@GROUP name=fv_default props=C09,C02 kind=K unwind=6 solver=kissat@*/
+H_DEFAULT(fv, LT)
+/*@GROUP name=fv_insert props=C09,C02 kind=K unwind=6 solver=kissat split=SW:0:2@*/
+H_INSERT_FS(fv, LT)
+/*@GROUP name=fv_insert_hint props=C09,C02 kind=K unwind=6 solver=kissat split=SW:3:5 qsplit=3@*/
+H_INSERT_HINT_FS(fv, LT)
+/*@GROUP name=fv_insert_range props=C09,C02 kind=K unwind=6 solver=kissat split=SX:0:10 tier=thorough@*/
+H_INSERT_RANGE(fv, LT)
+/*@GROUP name=fv_ctor_range props=C09,C02 kind=K unwind=6 solver=kissat split=SC:0:4 tier=thorough@*/
+H_CTOR_RANGE(fv, LT)
+/*@GROUP name=fv_ctor_cont props=C09,C02 kind=K unwind=6 solver=kissat split=SC:0:4 tier=thorough@*/
+H_CTOR_CONT(fv, LT)
+/*@GROUP name=fv_ctor_sorted props=C09,C02 kind=K unwind=6 solver=kissat@*/
+H_CTOR_SORTED(fv, LT)
+/*@GROUP name=fv_ctor_sorted_range props=C09,C02 kind=K unwind=6 solver=kissat@*/
+H_CTOR_SORTED_RANGE(fv, LT)
+/*@GROUP name=fv_extract props=C09,C02 kind=K unwind=6 solver=kissat@*/
+H_EXTRACT(fv, LT, (void)0)
+/*@GROUP name=fv_replace props=C09,C02 kind=K unwind=6 solver=kissat@*/
+H_REPLACE(fv, LT)
+/*@GROUP name=fv_erase_key props=C09,C02 kind=K unwind=6 solver=kissat split=SW:0:1@*/
+H_ERASE_KEY(fv, LT, (void)0)
+/*@GROUP name=fv_erase_it props=C09,C02 kind=K unwind=6 solver=kissat@*/
+H_ERASE_IT_FS(fv, LT)
+/*@GROUP name=fv_erase_range props=C09,C02 kind=K unwind=6 solver=kissat@*/
+H_ERASE_RANGE(fv, LT, (void)0)
+/*@GROUP name=fv_erase_if props=C09,C02 kind=K unwind=6 solver=kissat@*/
+H_ERASE_IF(fv, LT)
+/*@GROUP name=fv_whole props=C09,C02 kind=K unwind=6 solver=kissat split=SW:0:6@*/
+H_WHOLE(fv, LT)
+/*@GROUP name=fv_relational props=C09,C02 kind=K unwind=6 solver=kissat split=SW:0:3@*/
+H_RELATIONAL(fv, LT)
+/*@GROUP name=fv_alias props=C09,C02 kind=K unwind=6 solver=kissat split=SW:0:2 tier=thorough@*/
+H_ALIAS_FS(fv, LT)
+/*@GROUP name=fv_seq_erase_insert props=C09,C02 kind=K unwind=6 solver=kissat split=SW:0:2@*/
+H_SEQ_ERASE_INSERT(fv, LT)
+/*@GROUP name=fv_seq_extract props=C09,C02 kind=K unwind=6 solver=kissat split=SW:0:2@*/
+H_SEQ_EXTRACT_MOD(fv, LT)
+/*@GROUP name=fv_seq_swap_lookup props=C09,C02 kind=K unwind=6 solver=kissat split=SW:0:1 tier=thorough@*/
+H_SEQ_SWAP_LOOKUP(fv, LT)
 /* =================================================================== flat_multiset ================================= */
 /*@GROUP name=fm_ctor props=C09,C02 kind=K unwind=20 solver=kissat@*/
 H_MULTI(fm, LT)
@@ -572,3 +935,7 @@ H_MULTI(fm, LT)
 H_MULTI(fmg, GT)
 /*@GROUP name=fmi_ctor props=C09,C02 kind=K unwind=20 solver=kissat@*/
 H_MULTI(fmi, LT)
+/*@GROUP name=fma_ctor props=C09,C02 kind=K unwind=20 solver=kissat@*/
+H_MULTI(fma, LT)
+/*@GROUP name=fmv_ctor props=C09,C02 kind=K unwind=20 solver=kissat@*/
+H_MULTI(fmv, GT)
